@@ -71,6 +71,7 @@ BOXES = {
     "B_30d": [(-3.0 - 0.25 * j, 2.0 + 0.5 * j) for j in range(30)],
     # bounds for which lower + (upper - lower) is one ulp ABOVE upper in floating point (normalised-coordinate arithmetic overshoots)
     "B_ulp": [(-0.1, 0.3), (-1.3, 2.6)],
+    "B_int": [(-20.0, 20.0), (-3.0, 7.0)],  # whole-number bounds: may be handed over as an integer array (desc int_bounds)
     "B_1d": [(-2.0, 6.0)],
     "B_5d": [(-1.0, 2.0), (0.5, 1.5), (-3.0, -1.0), (10.0, 12.0), (-0.5, 0.5)],
 }
@@ -931,7 +932,7 @@ class World:
             else:
                 f = make_objective(d["obj"], self.box, self.maximize, shift)
             self.pure.append(make_objective(d["obj"], self.box, self.maximize, shift))
-            p = FunctionProblem(Recorder(f, i, self.log, array_memo=bool(d.get("array_memo"))), bounds=self.box.copy(), maximize=_cast_verdict(self.maximize, d.get("maximize_type")), **({"use_cache": True} if d.get("use_cache") else {}))
+            p = FunctionProblem(Recorder(f, i, self.log, array_memo=bool(d.get("array_memo"))), bounds=(self.box.astype(int) if d.get("int_bounds") else self.box.copy()), maximize=_cast_verdict(self.maximize, d.get("maximize_type")), **({"use_cache": True} if d.get("use_cache") else {}))
             if d.get("inner_wrap"):
                 # another shipped wrapper between the objective's problem and the budget wrapper
                 from pyhms.core.problem import EvalCountingProblem, StatsGatheringProblem
